@@ -150,6 +150,18 @@ Proof.
 Qed.
 Print Assumptions C09_model_passes_oracle.
 
+(* Listeners are independent -- what the theorem side says and does not say.  The model's
+   [Send c] takes the change as a VALUE (Go: `newMessage := *(newAny.(*CollectionChange))`, and
+   `change := messages[id]; return &change` on the way out): the state machine owns its pending
+   changes and cannot touch the object the bus also hands to the other listeners; Gallina cannot
+   even express such aliasing.  So the theorems are about one pipeline in isolation, and "a stalled
+   lossy subscriber does not alter what another subscriber receives" is a hypothesis of the model,
+   not a consequence.  It is checked on the implementation directly: (1) after every driven
+   sequence each sent *CollectionChange object must be unchanged (Direct c09:sent-object-modified),
+   (2) two subscribers on one Collection / Value, a stalled lossy one registered before and after a
+   prompt backpressured one -- the latter's stream must be the exact committed edit script (KApiColl
+   true / KApiValue true cases tagged multi-*), the former's drained fold the final List. *)
+
 (* Not a theorem: the wall-clock parts of the statement ("complete without waiting" as a latency,
    the five second send timeout of Value.set, writers waiting under backpressure).  They are
    measured by the harness (KApi* cases) -- see notes/C09.md. *)
